@@ -20,6 +20,10 @@ func init() {
 const tIK = "leveldb.internalKey"
 
 func runC15(p *Prog, r *Report) {
+	if want("C15.7") {
+		// (shared with C19) internal key validity
+		ruleValidKeyAgreesWithParse(p, r, "C15.7")
+	}
 	if want("C15.1") {
 		ruleICompareSignTable(p, r, "C15.1")
 	}
